@@ -358,7 +358,7 @@ def run_path(init, shape, seed, path, observe):
                 why = None
                 if bool(got) and not bool(want):
                     why = 'kind:complex_for_real'
-                elif bool(want) and not bool(got) and np.abs(np.imag(R)).max() > 0:
+                elif bool(want) and not bool(got) and (R.size > 0 and np.abs(np.imag(R)).max() > 0):
                     why = 'kind:real_for_complex'
             else:
                 why = judge(got, want)
